@@ -70,6 +70,7 @@ func profileFor(prop string, tier string) *Profile {
 		p.Dt = dtShort
 		if prop == "C08" {
 			p.MaxTx = 12
+			p.Export = true
 		}
 	case "C10":
 		p.W = map[string]int{"str": 45, "gov": 5, "bank": 4, "attack": 6, "multi": 5, "nest": 2}
@@ -83,6 +84,10 @@ func profileFor(prop string, tier string) *Profile {
 	case "C14":
 		p.W["multi"], p.W["gov"], p.W["nest"] = 15, 8, 6
 		p.FaultPct = 25
+		// "leaves all module state exactly as it was" includes what a process keeps outside the
+		// store: a replica that is restarted now and then has forgotten everything a failed
+		// transaction or a discarded proposal may have left in memory, and must keep agreeing
+		p.Replicas, p.NodeFaults = 1, true
 	case "C15":
 		p.Export = true
 		p.Dt = dtMixed
@@ -243,7 +248,7 @@ func NewRun(prop string, seed int64, tier string) (*Trace, *Gen) {
 	} else if g.pct(25) {
 		k.StartPO, k.StartWrk, k.StartBeacon = 1000, 4294967295, 256
 	}
-	if prop == "C15" && (tier == "thorough" && g.pct(10) || tier != "thorough" && g.pct(4)) {
+	if (prop == "C15" || prop == "C08") && (tier == "thorough" && g.pct(10) || tier != "thorough" && g.pct(4)) {
 		// a registration with more records than an export carries, injected through genesis
 		k.BigReg = &BigReg{Kind: pick(r, []string{"wrk", "bcn"}), N: ExportCap + uint64(pick(r, []int{1, 2, 5, 300}))}
 		if k.StartWrk < 2 {
